@@ -68,8 +68,10 @@ Fixpoint lookup_unit (tbl : list (list str * N)) (u : str) : option N :=
 Definition unit_mult (u : str) : option N := lookup_unit unit_table (map lower u).
 
 Inductive dur_err := EEmpty | EMissingUnit | EMissingNumber | EBadNumber | EZero | EBadUnit | ETooLarge.
-(* DOverflow w: the unchecked u64 product overflowed; w is the wrapped value the release profile
-   returns, the debug profile panics. *)
+(* DOverflow w: an unchecked u64 product overflowed; w is the wrapped value the release profile
+   returns, the debug profile panics. Since the D17 repair (value.checked_mul(multiplier) -> Config
+   error) parse_duration never produces it: theorem C15_no_overflow. The constructor stays so that
+   the statement can be made and the harness keeps comparing both build profiles. *)
 Inductive dur_result := DOk (v : N) | DErr (e : dur_err) | DOverflow (w : N).
 
 Definition parse_duration (input : str) : dur_result :=
@@ -89,7 +91,7 @@ Definition parse_duration (input : str) : dur_result :=
         if N.eqb v 0 then DErr EZero else
         match unit_mult u with
         | None => DErr EBadUnit
-        | Some m => let (w, ov) := mul64 v m in if ov then DOverflow w else DOk w
+        | Some m => match checked_mul64 v m with Some w => DOk w | None => DErr ETooLarge end
         end
       end
     end
